@@ -1,8 +1,6 @@
 #!/bin/bash
-# Build the whole framework offline from files on disk: regenerate Gen/ from /repo, build every Lean module.
-set -e
+# Build the framework offline from files on disk: regenerate Gen/ from /repo, build the Lean modules of every accepted check.
 here="$(cd "$(dirname "${BASH_SOURCE[0]}")" && pwd)"
-cd "$here"
+cd "$here" || exit 2
 export PYTHONPATH="${VERIF_REPO:-/repo}:$here" NIPYPE_PYDRA_VERIF=1 PYTHONDONTWRITEBYTECODE=1 NO_ET=1
-"${VERIF_PYTHON:-/venv/bin/python}" -m harness.extract_all || echo "extract_all reported problems (checks will report them per property)"
-cd lean && lake build
+exec "${VERIF_PYTHON:-/venv/bin/python}" -m harness.build_ready
